@@ -98,10 +98,11 @@ class Integration:
         else:
             self.rpc.app.freeze()
 
-    def post(self, body, content_type, path=None):
+    def post(self, body, content_type, path=None, extra_headers=None):
         self.ready()
         path = path if path is not None else ((self.path or '') + self.endpoint or '/')
         headers = {} if content_type is None else {'Content-Type': content_type}
+        headers.update(extra_headers or {})
         if self.kind in ('flask', 'werkzeug', 'werkzeug-wsgi_app'):
             try:
                 r = self.client.post(path, data=body, headers=headers)
